@@ -256,6 +256,11 @@ def rule_r2(ctx) -> List[R.Inst]:
     hw = [n for n in ast.walk(lp) if isinstance(n, ast.If) and any(isinstance(x, ast.Call) and call_name(x) == "h_mask" for x in ast.walk(n))]
     if len(hw) == 1:
         t = hw[0].test
+        if isinstance(t, ast.Name) and t.id != "h_window":
+            # a flag computed once (`use_h = h_window is not None`) stands for its definition; any other local is not read
+            ds = [n.value for n in ast.walk(g.node) if isinstance(n, ast.Assign) and len(n.targets) == 1 and isinstance(n.targets[0], ast.Name) and
+                  n.targets[0].id == t.id]
+            t = ds[0] if len(ds) == 1 else ast.Call(func=ast.Name(id="unknown", ctx=ast.Load()), args=[t], keywords=[])
         if isinstance(t, ast.Compare) and isinstance(t.ops[0], ast.IsNot) and isinstance(t.comparators[0], ast.Constant) and \
                 t.comparators[0].value is None:
             insts.append(R.ok(rid, "h-window-guard", file, t.lineno, idiom="if h_window is not None"))
